@@ -205,6 +205,13 @@ func (P *Program) ContractForAt(fn, caller *ssa.Function) (*FuncContract, bool) 
 		if c, ok := P.CS.Externs[k]; ok {
 			return c, true
 		}
+		// an instance of a generic function answers to the at-site contract written for the generic function
+		if o := fn.Origin(); o != nil && o != fn {
+			k = o.String() + "@" + caller.Pkg.Pkg.Name() + "." + caller.RelString(caller.Pkg.Pkg)
+			if c, ok := P.CS.Externs[k]; ok {
+				return c, true
+			}
+		}
 	}
 	return P.ContractFor(fn), false
 }
